@@ -1,5 +1,5 @@
 import io
-from impl import op, hx, unhx, err, mkfile
+from impl import op, hx, unhx, err, mkfile, CStream
 import impl_bf3 as b3
 import impl_bec2 as b2
 from bec2format.bf3file import Bf3File, Bf3Component, conf_dict_to_tlv, MAX_TLVBLOCK_SIZE
@@ -429,6 +429,29 @@ def prop_c11(cm, cs, bs, ops):
                 tags = [b.tag for b in f.auth_blocks.values()]
                 if len(tags) != len(set(tags)):
                     return f"FAIL step {n}: more than one auth block of a kind"
+            elif t[0] == "rw":
+                # write the file and go on with what is read back (BF3 text; the auth blocks stay with the object)
+                key = bytes(range(16))
+                out = CStream()
+                f.bf3file.write_file(out, key)
+                back = Bf3File.read_file(CStream(out.getvalue()), True, key)
+                f = Bec2File(back, list(f.auth_blocks.values()), bytes(range(16))) if f.auth_blocks else Bec2File(back, session_key=bytes(range(16)))
+                # comment text does not keep blanks at its ends through the text form (C01's subject): go on with what came back
+                if {k.strip(): v.strip() for k, v in comments.items()} != {k.strip(): v.strip() for k, v in back.comments.items()}:
+                    return f"FAIL step {n}: comments {dict(back.comments)!r:.150} after write / read instead of {comments!r:.150}"
+                comments = dict(back.comments)
+                cut = lambda c: (c.blob[:c.actual_len], c.actual_len, dict(c.description), bool(c.encrypt_by_session_key))
+                got_o = [c for c in back.components if not is_cfg(c)]
+                if [cut(c) for c in got_o] != [cut(c) for c in others]:
+                    return f"FAIL step {n}: the other components do not come back from write / read as they were"
+                others = got_o
+                cfgs_b = [c for c in back.components if is_cfg(c)]
+                if last_cfg is not None:
+                    if len(cfgs_b) != 1:
+                        return f"FAIL step {n}: after write / read the file holds {len(cfgs_b)} configuration components"
+                    if cut(cfgs_b[0]) != cut(last_cfg):
+                        return (f"FAIL step {n}: after write / read the configuration component is {cut(cfgs_b[0])!r:.160} instead of "
+                                f"{cut(last_cfg)!r:.160}")
             elif t[0] == "append":
                 c = b3.parse_comps(t[1])[0]
                 f.bf3file.components.append(c)
